@@ -697,13 +697,57 @@ theorem lexed_source_closes (num : List (Str × Nat)) (src : List Nat) (ts : Lis
     simp [tkOfLex, hid, Ecal.Lex.tERROR, Ecal.Lex.tEOF, Ecal.Lex.tSTRING, Ecal.Lex.tIDENTIFIER, Ecal.Lex.tNUMBER] at hk
     exact hk.symm
 
+/-- C03 (number literals, lexer level): for EVERY input, every NUMBER token of the lexer model the
+    driver runs carries a text that passed the number test of `lexToken`: it starts with a digit
+    `0`–`9`, contains no line end, and `strconv.ParseFloat` (model: `validFloat`) accepts it. So
+    whatever the splitting of `lexNumberBlock` does (`1e5` → `1`, `e5`; `1.2.3` → error), a NUMBER
+    token never carries a text that is not a number — in particular never `1e`, `1.2.3`, `1e+999`. -/
+theorem number_tokens_are_numbers (input : List Nat) :
+    ∀ t ∈ (Ecal.Lex.lex input).toList, t.id = Ecal.Lex.tNUMBER →
+      (∃ c rest, t.val = c :: rest ∧ 48 ≤ c ∧ c ≤ 57) ∧ t.val.contains 10 = false ∧ Ecal.Lex.validFloat t.val = true := by
+  intro t ht hid
+  have h := Ecal.Lex.number_tokens_pass_number_test input t ht hid
+  simp only [Ecal.Lex.numberCandidate, Bool.and_eq_true, Bool.not_eq_true'] at h
+  obtain ⟨⟨h1, h2⟩, h3⟩ := h
+  refine ⟨?_, h2, h3⟩
+  cases hv : t.val with
+  | nil => rw [hv] at h1; simp at h1
+  | cons c rest =>
+    rw [hv] at h1
+    simp only [Bool.and_eq_true, decide_eq_true_eq] at h1
+    exact ⟨c, rest, rfl, h1.1, h1.2⟩
+
+/-- C03 (number literals, what the parser gets): every number atom in the token list the driver
+    hands to `Impl.parseProgram` is such a text (with the float bits supplied for exactly that text);
+    comments are dropped, nothing else is added. -/
+theorem parser_number_atoms_are_numbers (num : List (Str × Nat)) (src : List Nat) (ts : List LTok)
+    (h : lexTokens num src = some ts) (txt : Str) (bits line : Nat) (hm : LTok.mk (.atom (.num txt bits)) line ∈ ts) :
+    Ecal.Lex.numberCandidate txt = true := by
+  obtain ⟨t, ht, hc⟩ := convAll_mem num _ ts h _ hm
+  simp only [convTok, Option.map_eq_some_iff] at hc
+  obtain ⟨k, hk, hk'⟩ := hc
+  simp only [LTok.mk.injEq] at hk'
+  obtain ⟨rfl, _⟩ := hk'
+  obtain ⟨hid, rfl⟩ := tkOfLex_num num t txt bits hk
+  have hmem : t ∈ (Ecal.Lex.lex src).toList := (List.mem_filter.1 ht).1
+  exact Ecal.Lex.number_tokens_pass_number_test src t hmem hid
+
+/-- non-vacuity: `1e5 + 1.5` has two NUMBER tokens (`1`, `1.5`); the number test rejects `1.2.3`,
+    `1e+999`, `1e`, `e5` and an empty text -/
+example : ((Ecal.Lex.lex (Ecal.Lex.str "1e5 + 1.5")).toList.filter (·.id = Ecal.Lex.tNUMBER)).map (·.val)
+    = [[49], [49, 46, 53]] := by decide +kernel
+example : Ecal.Lex.numberCandidate (Ecal.Lex.str "1.2.3") = false ∧ Ecal.Lex.numberCandidate (Ecal.Lex.str "1e+999") = false ∧
+    Ecal.Lex.numberCandidate (Ecal.Lex.str "1e") = false ∧ Ecal.Lex.numberCandidate (Ecal.Lex.str "e5") = false ∧
+    Ecal.Lex.numberCandidate [] = false ∧ Ecal.Lex.numberCandidate (Ecal.Lex.str "1.5") = true := by decide +kernel
+
 /-- kinds and texts of the tokens of a source (for the instances below) -/
 def lexKinds (src : String) : List (Nat × List Nat) :=
   (Ecal.Lex.lex (Ecal.Lex.str src)).toList.map fun t => (t.id, t.val)
 
-/-! ### number-literal splitting: instances (tests of the lexer model the driver runs; the general
-    statement — a NUMBER token's text starts with a digit and is accepted by ParseFloat, `e` belongs
-    to it only before `+digit` — needs C18's per-token invariant extended and is not proved) -/
+/-! ### number-literal splitting: instances (tests of the lexer model the driver runs). Proved in
+    general above: a NUMBER token's text starts with a digit and is accepted by ParseFloat. NOT proved
+    in general: where `lexNumberBlock` ends the block (`e` belongs to it only before `+digit`) — that
+    needs an invariant of its loop over the consumed runes -/
 
 /-- `1 -2` : number, minus, number -/
 example : lexKinds "1 -2" = [(6, [49]), (34, [45]), (6, [50]), (1, [])] := by decide +kernel
